@@ -70,7 +70,10 @@ def _chain_len(chain, e, lat, wo, ld):
     return (clean, gen, clean_nolead, s + lat[last])
 
 
-def _cp(isa, n, ebits, lat, wo, ld):
+def _cp(isa, n, ebits, lat, wo, ld, gap=None):
+    # gap: position after which the file has blank lines (the parser skips them but keeps counting): line
+    # numbers are then not consecutive
+    lineno = [i + 1 + (2 if gap is not None and i > gap else 0) for i in range(n)]
     parser = NativeParser(PX if isa == "x86" else PA)
     names = ["rax", "rbx", "rcx", "rdx"] if isa == "x86" else ["x1", "x2", "x3", "x4"]
     e = {}
@@ -84,7 +87,7 @@ def _cp(isa, n, ebits, lat, wo, ld):
     for i in range(n):
         src = [reg(isa, names[j]) for j in range(i) if e[(j, i)]]
         flags = [INSTR_FLAGS.HAS_LD] if ld[i] else []
-        kernel.append(iform(i + 1, src=src, dst=[reg(isa, names[i])], lat=lat[i], wo=wo[i], flags=flags))
+        kernel.append(iform(lineno[i], src=src, dst=[reg(isa, names[i])], lat=lat[i], wo=wo[i], flags=flags))
     g = DG(kernel, parser)
     cp1 = g.get_critical_path()
     total1 = sum([x.latency_cp for x in cp1])
@@ -96,10 +99,12 @@ def _cp(isa, n, ebits, lat, wo, ld):
         return verdict(False, nontrivial=True, sample=lambda: {"repeated_query": [total1, total]})
     t_clean, t_gen, edges = _ref(n, e, lat, wo, ld)
     ok_total = (total == t_clean) or (total == t_gen)
-    chain = [x.line_number - 1 for x in cp]
+    chain = [lineno.index(x.line_number) for x in cp]
     cl = _chain_len(chain, e, lat, wo, ld)
     ok_chain = cl is not None and any(total == c for c in cl)
     ok_single = all(total >= lat[i] for i in range(n))
+    # instructions that are not marked carry no critical-path share
+    ok_single = ok_single and all(k.latency_cp == 0 for k in kernel if all(k is not x for x in cp))
     return verdict(ok_total and ok_chain and ok_single, nontrivial=len(edges) > 0,
                    sample=lambda: {"lat": lat, "wo": wo, "ld": ld, "edges": [list(k) for k, v in e.items() if v],
                                    "total": total, "chain": chain})
@@ -120,9 +125,9 @@ def cp3_x86(e01: bool, e02: bool, e12: bool, l0: int, l1: int, l2: int, w0: int,
     return _cp("x86", 3, [e01, e02, e12], [l0, l1, l2], w, [d0, d1, d2])
 
 
-def cp3_x86_ld1(e01: bool, e02: bool, e12: bool, l0: int, l1: int, l2: int, w: int, which: int) -> bool:
+def cp3_x86_ld1(e01: bool, e02: bool, e12: bool, l0: int, l1: int, l2: int, w: int, which: int, gap: int) -> bool:
     """
-    pre: 0 <= l0 <= 40 and 0 <= l1 <= 40 and 0 <= l2 <= 40 and 0 <= w and 0 <= which <= 3
+    pre: 0 <= l0 <= 40 and 0 <= l1 <= 40 and 0 <= l2 <= 40 and 0 <= w and 0 <= which <= 3 and 0 <= gap <= 2
     post: _
     """
     if not _in_shard([e01, e02, e12, which == 1 or which == 3, which >= 2]):
@@ -138,7 +143,9 @@ def cp3_x86_ld1(e01: bool, e02: bool, e12: bool, l0: int, l1: int, l2: int, w: i
             return True
         wo[k] = w
         ld[k] = True
-    return _cp("x86", 3, [e01, e02, e12], lat, wo, ld)
+    from vp.symx import pick
+    g = pick(gap, 3)
+    return _cp("x86", 3, [e01, e02, e12], lat, wo, ld, gap=None if g == 2 else g)
 
 
 def cp3_writeback(l0: int, l1: int, l2: int, pil: int, e01: bool, e02: bool, e12: bool, wb1: bool, wb2: bool) -> bool:
@@ -398,7 +405,7 @@ def cp_marks4(e01: bool, e02: bool, e03: bool, e12: bool, e13: bool, e23: bool, 
 
 
 CELLS = {
-    "cp3_x86_ld1": {"fn": cp3_x86_ld1, "tiers": ("quick",), "bound": "n=3, all 8 dependency structures, lat ints in [0,40]; at most one instruction (symbolic position) has a load stage with symbolic wo <= lat",
+    "cp3_x86_ld1": {"fn": cp3_x86_ld1, "tiers": ("quick",), "bound": "n=3, all 8 dependency structures, lat ints in [0,40]; at most one instruction (symbolic position) has a load stage with symbolic wo <= lat; consecutive line numbers or a gap after the first / second line",
                     "budget": {"quick": 170}, "shards": 16},
     "cp3_writeback": {"fn": cp3_writeback, "bound": "n=3, instruction 0 = post-indexed load (data + base write-back); consumers read data or written-back base (edge weight = symbolic p_index_latency 0..10, independent of the producer latency); int latencies 0..40",
                       "budget": {"quick": 170, "thorough": 600}, "shards": 8},
